@@ -41,6 +41,9 @@ func WorkerMain(mode string) int {
 	if mode == "race" {
 		return raceWorker(repo)
 	}
+	if mode == "shard" {
+		return ShardMain(repo)
+	}
 	if mode == "probe" {
 		return probeWorker(repo)
 	}
@@ -219,6 +222,10 @@ func (p *freshPool) wait(base []hashes) {
 			g := p.got[i][k]
 			if g.raw == "" && g.crash == "" {
 				out.Hit("fresh-process:no-answer")
+				continue
+			}
+			if g.crash == "timeout" || base[i].crash == "timeout" {
+				out.Hit("timeout-skipped")
 				continue
 			}
 			if g.crash == "worker-died" || (base[i].crash != "" && g.crash != "") {
